@@ -1,8 +1,16 @@
 //@target src/solver/implementations/default/problemdata.rs
 #[cfg(kani)]
-mod verif_kani_problemdata {
+pub(crate) mod verif_kani_problemdata {
     use super::*;
     use crate::solver::core::cones::SupportedConeT::*;
+
+    // fixture for harnesses in sibling modules (normq / normb are private fields): a 1x1 problem record
+    pub(crate) fn fixture_data(presolver: Option<Presolver<f64>>) -> DefaultProblemData<f64> {
+        DefaultProblemData::<f64> {
+            P: CscMatrix::zeros((1, 1)), q: vec![1.0], A: CscMatrix::zeros((1, 1)), b: vec![1.0], cones: vec![],
+            n: 1, m: 1, equilibration: DefaultEquilibrationData::new(1, 1), normq: None, normb: None, presolver,
+        }
+    }
 
     fn settings(presolve: bool) -> DefaultSettings<f64> {
         // struct-literal construction through Default would run the builder (String formatting): keep it out of CBMC
